@@ -381,6 +381,69 @@ fn main() {
                     }
                 }
             }
+            "A" => {
+                // two-byte sweep: every value pair at positions p1, p2 of the template line, each on a
+                // fresh parser; `fix` recomputes the checksum field of the template; one digest of all
+                // 65536 token lines is printed (the orchestrator re-runs a sweep line by line on a mismatch)
+                let p1: usize = f[1].parse().unwrap();
+                let p2: usize = f[2].parse().unwrap();
+                let decode = f[3] == "1";
+                let fix = f[4] == "1";
+                let mut bytes = unhex(f[5]);
+                let star = bytes.iter().rposition(|b| *b == b'*');
+                let (mut h1, mut h2): (u32, u32) = (2166136261, 0x9747b28c);
+                let mut t = String::with_capacity(4096);
+                for y in 0..=255u8 {
+                    for z in 0..=255u8 {
+                        bytes[p1] = y; bytes[p2] = z;
+                        if fix {
+                            if let Some(s) = star {
+                                if s + 2 < bytes.len() && s >= 1 {
+                                    let x = bytes[1..s].iter().fold(0u8, |a, b| a ^ b);
+                                    bytes[s + 1] = b"0123456789ABCDEF"[(x >> 4) as usize];
+                                    bytes[s + 2] = b"0123456789ABCDEF"[(x & 15) as usize];
+                                }
+                            }
+                        }
+                        let mut parser = AisParser::new();
+                        let r = catch_unwind(AssertUnwindSafe(|| parser.parse(&bytes, decode))).map_err(|_| ());
+                        t.clear();
+                        step_tokens(&r, &mut t);
+                        state_tokens(&parser, &mut t);
+                        t.push('\n');
+                        for b in t.bytes() {
+                            h1 = (h1 ^ b as u32).wrapping_mul(16777619);
+                            h2 = (h2 ^ b as u32).wrapping_mul(709607);
+                        }
+                    }
+                }
+                write!(o, "A {:08x}{:08x}", h1, h2).unwrap();
+            }
+            "B" => {
+                // two-byte sweep of a message payload through messages::parse (digest as for `A`)
+                let p1: usize = f[1].parse().unwrap();
+                let p2: usize = f[2].parse().unwrap();
+                let mut bytes = unhex(f[3]);
+                let (mut h1, mut h2): (u32, u32) = (2166136261, 0x9747b28c);
+                let mut t = String::with_capacity(4096);
+                for y in 0..=255u8 {
+                    for z in 0..=255u8 {
+                        bytes[p1] = y; bytes[p2] = z;
+                        t.clear();
+                        match catch_unwind(|| ais::messages::parse(&bytes)) {
+                            Err(_) => t.push_str("(k c9)"),
+                            Ok(Err(e)) => error(&e, &mut t),
+                            Ok(Ok(m)) => { t.push_str("(k c0 "); message(&m, &mut t); close(&mut t); }
+                        }
+                        t.push('\n');
+                        for b in t.bytes() {
+                            h1 = (h1 ^ b as u32).wrapping_mul(16777619);
+                            h2 = (h2 ^ b as u32).wrapping_mul(709607);
+                        }
+                    }
+                }
+                write!(o, "B {:08x}{:08x}", h1, h2).unwrap();
+            }
             "" => continue,
             _ => panic!("bad case line"),
         }
